@@ -141,7 +141,7 @@ func (c *c14) pickMissingBehaviour(id string) {
 	c.r.Logf("  provider script: %s -> %s", shortID(id), pvNames[b])
 }
 
-var stateFaultKinds = []string{"sig_corrupt", "sig_strip", "sig_wrong_key", "auth_fail", "missing_auth", "wrong_room", "non_state", "dup_key", "malformed", "dup_listing", "sig_one_copy"}
+var stateFaultKinds = []string{"sig_corrupt", "sig_strip", "sig_wrong_key", "auth_fail", "missing_auth", "wrong_room", "non_state", "dup_key", "malformed", "dup_listing", "sig_one_copy", "unsignable"}
 
 // applyFaults gives a tape-chosen subset of the answer's events one fault each.
 func (c *c14) applyFaults(a *answer, allowStructural bool) {
@@ -165,7 +165,7 @@ func (c *c14) applyFaults(a *answer, allowStructural bool) {
 		return sim.Pick(t, cands)
 	}
 	for i := 0; i < k; i++ {
-		w := []int{3, 2, 2, 4, 4, 1, 1, 1, 2, 1, 1}
+		w := []int{3, 2, 2, 4, 4, 1, 1, 1, 2, 1, 1, 1}
 		if !allowStructural {
 			w[6], w[7] = 0, 0
 		}
@@ -188,6 +188,28 @@ func (c *c14) applyFaults(a *answer, allowStructural bool) {
 			touched[v.EventID()] = true
 			c.pickMissingBehaviour(v.EventID())
 			c.r.Logf("  fault %s on %s", kind, c.desc(v.EventID()))
+		case "unsignable":
+			// An extra state event for which it cannot even be worked out who
+			// had to sign it: an invite whose state key is no user ID. Its
+			// signatures cannot be verified, so it may not come back - and the
+			// verdict on its neighbours may not shift because of it.
+			sk := sim.Pick(t, []string{"nobody", "@", "not a user id", "@:"})
+			ev, err := rm.build(rm.users[0], []string{rm.tip.id}, rm.tip.after, spec.MRoomMember, world.Str(sk), map[string]any{"membership": "invite"}, timeNow())
+			if err != nil || ev == nil {
+				c.r.Probe("unsignable_event_not_buildable")
+				continue
+			}
+			e := entryOf(ev)
+			e.note = kind
+			if t.Chance(700) {
+				a.state = insertAt(a.state, t.Intn(len(a.state)+1), e)
+			} else {
+				a.auth = insertAt(a.auth, t.Intn(len(a.auth)+1), e)
+			}
+			a.sigBad[ev.EventID()] = kind
+			a.faults[ev.EventID()] = kind
+			touched[ev.EventID()] = true
+			c.r.Logf("  fault unsignable: invite of %q inserted", sk)
 		case "sig_one_copy":
 			// an event listed among the auth events and in the state: the
 			// signature of one of the two copies is damaged, the other is intact
